@@ -120,6 +120,11 @@ def check_state(rep, s, tag):
         # length vs buffer
         okl = st.prove_le(sn.length, sn.d['size'])
         rep.check(okl, 'R02.6', '%s|len%s' % (fn, tag), '%s: frame length %s not proven <= buffer size %s' % (fn, short(sn.length), short(sn.d['size'])), function=fn, file=fnf)
+        # ... and vs the interface MTU itself (a buffer sized more generously than the MTU proves nothing about the wire)
+        from ..port import PortModel as _PM
+        mtu_t = C(1500) if tag else _PM.MTU
+        okm = st.prove_le(sn.length, mtu_t)
+        rep.check(okm, 'R02.6', '%s|len-vs-mtu%s' % (fn, tag), '%s: frame length %s not proven <= the interface MTU %s' % (fn, short(sn.length), short(mtu_t)), function=fn, file=fnf)
         # structure
         if is_const(opb):
             structure(rep, s, sn, opb[1], fn, tag)
